@@ -4,7 +4,8 @@ set -u
 BIN=$1; PATCH=$2; shift 2
 cd /tmp/mut/repo && git checkout -q -- . && git apply "$PATCH" || { echo "patch does not apply"; exit 3; }
 cd /tmp/mut/harness && rsync -a --exclude target --exclude Cargo.toml --exclude .cargo /verif/harness/ /tmp/mut/harness/ 
-cargo build --bin $BIN 2>&1 | grep -E "^error" -A6 | head -20
+sed 's|"/repo/|"/tmp/mut/repo/|g' /verif/harness/Cargo.toml > /tmp/mut/harness/Cargo.toml
+cargo build --bin $BIN > /tmp/mut/build.log 2>&1 || { grep -E "^error" -A6 /tmp/mut/build.log | head -20; echo "harness build failed"; cd /tmp/mut/repo && git checkout -q -- .; exit 4; }
 case "$BIN" in c10|c11|c19|c20)
   ( cd /verif && cargo +1.92 build --manifest-path /tmp/mut/repo/Cargo.toml -p warcraft-rs -p storm-ffi --target-dir /verif/target/mut-repo --offline 2>&1 | grep -E "^error" -A6 | head -10 )
   export VERIF_CLI=/verif/target/mut-repo/debug/warcraft-rs VERIF_LIBSTORM=/verif/target/mut-repo/debug/libstorm.so ;;
